@@ -474,6 +474,17 @@ fn stop_case(ctx: &mut Ctx, idx: u64, via_ffi: bool) {
                 // split a stop literal across several tokens (byte tokens)
                 stream.extend(s.iter().map(|&b| b as u32));
             }
+            2 if !lits.is_empty() => {
+                // a stop literal interrupted by a special token (the decoded text does NOT contain the stop),
+                // followed by more text
+                let s = rng.pick(&lits).as_bytes();
+                if s.len() >= 2 {
+                    let cut = 1 + rng.below(s.len() - 1);
+                    stream.extend(s[..cut].iter().map(|&b| b as u32));
+                    stream.push(*rng.pick(&v.specials));
+                    stream.extend(s[cut..].iter().map(|&b| b as u32));
+                }
+            }
             _ => {
                 let t = rng.pick(&texts);
                 let a = rng.below(t.len());
